@@ -560,7 +560,9 @@ func (s *ObjectStorage) HasEncodedObject(h plumbing.Hash) (err error) {
 	// in loose.
 	if _, statErr := s.dir.ObjectStat(h); statErr == nil {
 		return nil
-	} else if !os.IsNotExist(statErr) {
+	} else if !os.IsNotExist(statErr) && !errors.Is(statErr, plumbing.ErrObjectNotFound) {
+		// (with ExclusiveAccess a miss in the cached loose-object list is
+		// reported as ErrObjectNotFound; alternates still have to be asked)
 		return statErr
 	}
 	if idxErr != nil {
